@@ -266,81 +266,54 @@ def classes(prog, info=None):
             if t[3] and any(x[0] != "text" and not (x[0] == "fill" and not x[2] and not x[3] and x[1][0] == "str") for x in G.flatten(t[4])):
                 out.append(K_ONLY)
                 break
-    # K_LEAK
-    loopvars = {}
-    for owner, t, enc, depth in info.tags:
-        if _iso(info, t[3]) and any(kind == "for" for kind, _ in enc):
-            # the forwarded layer is the nearest one containing `forloop`; for a loop between a component tag and a fill
-            # that is the fill's merged variable layer, which also holds the with-variables captured there
-            for kind, x in enc:
-                if kind in ("for", "with"):
-                    loopvars.setdefault(x, True)
-    if loopvars:
-        hit = False
+    # The predicates below OVER-approximate the input class of each root cause (every program in which the root cause can show
+    # is inside; many programs in which it cannot are inside too). They only NAME a deviation that was observed; whether the
+    # observed deviation is the recorded one is decided by the comparison with the mechanism model (c03.judge_with_mechanism).
+    nfor = sum(1 for s in info.sites if s[1] == "for")
+    scoped = {s[2] for s in info.sites if s[1] in ("for", "with")}
+    # K_LEAK: some tag is rendered isolated, some loop exists (its layer - or the variable layer of a fill standing in it - is
+    # forwarded down every chain of isolated copies), and a component template reads a for/with variable that is not its own
+    # data, or forloop outside a loop of its own
+    if nfor and any(_iso(info, t[3]) for _, t, _, _ in info.tags):
         for cn in info.lib:
             free, cnt = info.tpl_reads[cn]
-            if cnt or (free & set(loopvars)):
-                hit = True
-        if hit:
-            out.append(K_LEAK)
-    # K_RECAP: FillNode._extract_fill copies EVERY layer that contains `forloop` - the layer of an enclosing {% for %}, and the
-    # merged variable layer of an enclosing fill that stands in a loop (it holds that fill's with-variables too) - on top of
-    # the variables captured for the fill
-    if have_fill and any(s[1] == "for" for s in info.sites):
-        # loop variables are lifted always; with-variables only as part of the variable layer of an enclosing fill, i.e. when
-        # a fill is written inside another fill (or, django mode, in a component template that may be rendered inside one)
-        nested_fill = any(f.tag_depth > 0 for f in info.fills) or (mode == "django" and any(f.owner is not None for f in info.fills))
-        lifted = {s[2] for s in info.sites if s[1] == "for" or (s[1] == "with" and nested_fill)} & info.every_read
-        if any(n_sites(info, x, ("with", "for", "sd", "df", "data")) > 1 for x in lifted):
+            if cnt or (free & scoped):
+                out.append(K_LEAK)
+                break
+    # K_RECAP: FillNode._extract_fill copies EVERY layer that contains `forloop` - the layer of an enclosing {% for %}, the
+    # variable layer of an enclosing fill standing in a loop, a forwarded loop layer - on top of the variables captured for the fill
+    if have_fill and nfor:
+        if any(n_sites(info, x, ("with", "for", "sd", "df", "data")) > 1 for x in scoped & info.every_read):
             out.append(K_RECAP)
-    # K_ISO_BTW / K_DJ_BTW
+    # K_ISO_BTW / K_DJ_BTW: where render_func inserts the fill's variable layer
     for f in info.fills:
         if not f.btw:
             continue
         names = [x for _, x in f.btw]
         has_for = any(k == "for" for k, _ in f.btw)
         reads_cnt = all_reads(f.body)[1]
+        hit = any(n_sites(info, x, ("data", "with", "for", "sd", "df")) > 1 for x in names) or (has_for and reads_cnt and nfor > 1)
+        if not hit:
+            continue
         if _iso(info, f.only):
-            if f.owner is not None:
-                if any(n_sites(info, x, ("data", "with", "for", "sd", "df")) > 1 for x in names) or \
-                        (has_for and reads_cnt and any(k == "for" for k, _ in f.enc)):
-                    if K_ISO_BTW not in out:
-                        out.append(K_ISO_BTW)
-        else:
-            if f.owner is not None or f.tag_depth > 0:
-                if any(n_sites(info, x, ("data", "with", "for")) > 1 for x in names) or \
-                        (has_for and reads_cnt and any(s[0] == f.cname and s[1] == "for" for s in info.sites)):
-                    if K_DJ_BTW not in out:
-                        out.append(K_DJ_BTW)
-    # K_DFLT: the default alias is rendered lazily, while the layers of the fill are on the (shared) Context
+            if f.owner is not None and K_ISO_BTW not in out:
+                out.append(K_ISO_BTW)
+        elif (f.owner is not None or f.tag_depth > 0) and K_DJ_BTW not in out:
+            out.append(K_DJ_BTW)
+    # K_DFLT: a fill has a default= alias and reads it somewhere in its body (any depth, static or dynamic fill name, under any
+    # for / with / if): the slot default is rendered lazily, while the layers of the fill are on the (shared) Context
+    # K_ESCAPE: ... and the read is not a plain print in the fill's own content: a value position (keyword argument, with-value,
+    # slot data, condition, loop source, fill name) or anywhere inside a component tag nested in the fill
     for f in info.fills:
         df = [x for k, x in f.aliases if k == "df"]
         if not df or df[0] not in all_reads(f.body)[0]:
             continue
-        bound = {x for _, x in f.aliases} | {x for _, x in f.btw} | binders_in(f.body)
-        # what rendering the default content of a slot of that component may read: (django) its own expressions and,
-        # through a component nested in it, any template; (both modes) through a slot nested in it, the content of the
-        # fills of the same tag
-        nested = info.slot_default_nested.get(f.cname, set())
-        reads = set()
-        if mode == "django" and not f.only:
-            reads |= info.slot_default_reads.get(f.cname, set())
-            if "comp" in nested:
-                for cn in info.lib:
-                    reads |= info.tpl_all_reads[cn][0]
-        if "slot" in nested:
-            for g in info.fills:
-                if g.tag is f.tag:
-                    reads |= all_reads(g.body)[0]
-        if bound & reads:
+        if K_DFLT not in out:
             out.append(K_DFLT)
-            break
-    # K_ESCAPE: the default alias is used as a value (not printed) inside the fill
-    for f in info.fills:
-        df = [x for k, x in f.aliases if k == "df"]
-        if df and any(df[0] in expr_reads(e)[0] for t in G.flatten(f.body) if t[0] != "out" for e in node_exprs(t)):
+        esc = any(df[0] in expr_reads(e)[0] for t in G.flatten(f.body) if t[0] != "out" for e in node_exprs(t)) or \
+            any(df[0] in all_reads([t])[0] for t in G.flatten(f.body) if t[0] == "comp")
+        if esc and K_ESCAPE not in out:
             out.append(K_ESCAPE)
-            break
     return [k for k in CLASS_ORDER if k in out]
 
 
